@@ -107,9 +107,21 @@ func dataflowCase(c *Ctx, focus string) {
 	if focus == "C02" && c.Plan.Draw(2) == 0 {
 		gcfg.Preflight = true
 	}
+	if AdvOn {
+		gcfg.TypedMaps, gcfg.MapCalls = true, true
+		gcfg.AdvKeys = AdvKeys
+		gcfg.MapBias = true
+	}
 	prog := Generate(c.Plan, gcfg)
 	cfg := &RunCfg{Prog: prog, FCfg: &FCfg{MaxLen: 1 + c.Plan.Draw(3), MaxChunks: c.Plan.Draw(4), Salt: "df", AllowNil: c.Plan.Draw(4) == 0},
 		MaxSteps: 60000}
+	if AdvOn {
+		cfg.FCfg.KeyAlphabet = AdvKeys
+		cfg.FCfg.MaxLen += c.Plan.Draw(3)
+		if c.Plan.Draw(3) == 0 {
+			cfg.FCfg.MaxChunks = 9 + c.Plan.Draw(4) // cross the decimal-width boundary of chunk names
+		}
+	}
 	cfg.Flags = append(baseFlags(c.Plan), "--vdrmode=disable", "--strict=error")
 	swarmSched(c.Plan, cfg)
 	r := c.RunOnce(cfg, nil)
@@ -188,7 +200,35 @@ func lastLines(s string, n int) string {
 	return strings.Join(lines, " / ")
 }
 
+// AdvKeys is the adversarial typed-map key alphabet of the C11 profile: keys
+// with dots, slashes, percent signs, spaces, non-ASCII text, text that looks like
+// an encoded key, like a fork/chunk/uniquifier component, and pairs where one
+// key is a suffix of the other.
+var AdvKeys = []string{"a.b", "a/b", "%", "%2E", "%2F", "a%2Eb", "fork0", "fork_R", "u0123456789", "chnk1",
+	"x y", " lead", "ünï", "日本", "R", "L_R", "2", "1_2", "z%", "x.y_z%", "k", "K", "a.b.c", "..", "-", "_", "0", "00", "01",
+	"complete", "split_complete", "a.complete", "very_long_key_abcdefghijklmnopqrstuvwxyz_0123456789_abcdefghijklmnopqrstuvwxyz"}
+
+func c11Case(c *Ctx) {
+	AdvOn = true
+	defer func() { AdvOn = false }()
+	dataflowCase(c, "C11")
+	for i := range c.Res.Violations {
+		v := &c.Res.Violations[i]
+		if v.Property == "C01" || v.Property == "C02" || v.Property == "C03" {
+			v.Oracle = v.Property + "-" + v.Oracle
+			v.Property = "C11"
+		}
+		if v.Property == "SIM" && (v.Oracle == "run-step-limit" || v.Oracle == "run-stalled") {
+			v.Property, v.Oracle = "C11", "mapped-call-never-completes"
+		}
+	}
+}
+
+// AdvOn switches the dataflow case to adversarial typed-map keys.
+var AdvOn bool
+
 func init() {
+	Profiles["C11"] = c11Case
 	Profiles["C01"] = func(c *Ctx) { dataflowCase(c, "C01") }
 	Profiles["C02"] = func(c *Ctx) { dataflowCase(c, "C02") }
 	Profiles["C03"] = func(c *Ctx) { dataflowCase(c, "C03") }
